@@ -427,9 +427,8 @@ def instances(tier):
     for mo in range(1, mmax + 1):
         for mn in range(1, mmax + 1):
             out.append(inst_crosswalk(mo, mn))
-    if not q:
-        for mo, mn in ((2, 2), (2, 3), (3, 2), (3, 3)):
-            out.append(inst_crosswalk(mo, mn, lo=0))
+    for mo, mn in ((2, 2), (2, 3), (3, 2), (3, 3)) if q else ((1, 2), (2, 1), (2, 2), (2, 3), (3, 2), (3, 3), (4, 3), (3, 4), (4, 4)):
+        out.append(inst_crosswalk(mo, mn, lo=0))
     layers = [((1,), (2,)), ((2,), (1,)), ((2,), (3,)), ((3,), (2,)), ((2, 1), (1, 2)), ((2, 2), (1, 2))]
     if not q:
         layers += [((3,), (3,)), ((4,), (2,)), ((2,), (4,)), ((2, 2), (2, 2)), ((2, 2), (3, 1)), ((1, 3), (2, 2)),
